@@ -12,7 +12,7 @@ TECH = ("symbolic execution of the real library code with CrossHair 0.0.110 (z3 
 
 CLAIMS = {
     "C01": {
-        "text": "Bounded symbolic check (CrossHair/z3 on the real SyncInterpreter/Interpreter code): one transition from every legal, publicly reachable (configuration, history) pair of each skeleton machine, with symbolic source/target/reenter and free target strings, preserves the five legality clauses at every observation point; start() and snapshot/restore too. An inductive step, so event histories of any length over the covered transition kinds are covered; machines are the enumerated skeleton family, not all machines.",
+        "text": "Bounded symbolic check (CrossHair/z3 on the real SyncInterpreter/Interpreter code): one transition from every legal, publicly reachable (configuration, history) pair of each skeleton machine, with symbolic source/target/reenter and free target strings, preserves the five legality clauses at every observation point; start() and snapshot/restore too; a transition that aborts in the middle of its entry or exit phase (symbolic victim state with an unimplemented action) leaves a legal configuration equal to the one before. An inductive step, so event histories of any length over the covered transition kinds are covered; machines are the enumerated skeleton family, not all machines.",
         "note": "Trusts CrossHair's path exhaustion + z3, the short legality oracle (vf/model.py), the stubs (null logger, pinned StateNode hash, virtual-time loop). Pre-states: arbitrary legal configuration x history assignments reachable by public send() over a driver alphabet. Outside: machines beyond the skeleton family (curated CUR1-9 + generated trees <=4/5 nodes), services/timers during the step, multi-target transitions.",
         "design": "DESIGN.md section 4 C01",
     },
@@ -97,8 +97,8 @@ CLAIMS = {
         "design": "DESIGN.md section 4 C16",
     },
     "C17": {
-        "text": "Bounded symbolic check of the whole generator: the solver chooses the features that assemble a machine JSON (C19 description family x guard form out of 9 x invoke form out of 6 x parameterised actions x an unsupported key at 3 depths x 8 hostile names at 5 positions), the template (all five), async mode and file count; for each choice the real CLI main() runs in-process on a scratch directory. Exit != 0 implies nothing written; exit 0 implies valid Python that imports without output, without executing any JSON string (injection canary) and, for the pythonic templates, builds a machine whose deep fingerprint (guards with full structure and params, actions with params, invoke id/src/input/handlers, delays, tags, meta, context, resolved targets) and 5 traces equal create_machine(json); for the JSON-loading templates the generated logic binds every referenced name; an unrepresentable key is refused; regeneration is byte-identical and --check exits 0.",
-        "note": "Trusts CrossHair/z3 for the exhaustive enumeration of the choice space; the generator itself runs natively on the concrete JSON (argparse, file system and black cannot be traced) - this is the weakest use of the solver in this suite and is stated in DESIGN.md. The CLI's own verifier is not trusted. The 104 Stately exports and multi-machine (parent/child) generation are outside.",
+        "text": "Bounded symbolic check of the whole generator: the solver chooses the features that assemble a machine JSON (C19 description family x guard form out of 9 x invoke form out of 6 x parameterised actions x an unsupported key at 3 depths x 8 hostile names at 5 positions), the template (all five), async mode and file count; for each choice the real CLI main() runs in-process on a scratch directory. Exit != 0 implies nothing written; exit 0 implies valid Python that imports without output, without executing any JSON string (injection canary) and, for the pythonic templates, builds a machine whose deep fingerprint (guards with full structure and params, actions with params, invoke id/src/input/handlers, delays, tags, meta, context, resolved targets) and 5 traces equal create_machine(json); for the JSON-loading templates the generated logic binds every referenced name; an unrepresentable key is refused; regeneration is byte-identical and --check exits 0. The same oracle (without traces) is applied to each of the 104 Stately exports shipped in tests/tests_cli/stately_machines x 5 templates x 4 modes (codegen_corpus, export index symbolic).",
+        "note": "Trusts CrossHair/z3 for the exhaustive enumeration of the choice space; the generator itself runs natively on the concrete JSON (argparse, file system and black cannot be traced) - this is the weakest use of the solver in this suite and is stated in DESIGN.md. The CLI's own verifier is not trusted. Multi-machine (parent/child) generation is outside. One known finding (JSON-loading templates cannot bind names that are not lowerCamel/snake identifiers; 46 of the 104 exports are affected).",
         "design": "DESIGN.md section 4 C17",
     },
     "C19": {
